@@ -605,6 +605,9 @@ def tr_expr(cx, env, e):
             a, ta, pa = tr_expr(cx, env, e.args[0])
             if ta == 'int':
                 return a, 'int', pa
+        if (isinstance(f, ast.Attribute) and f.attr == 'tell' and not e.args and not e.keywords and isinstance(f.value, ast.Name)
+                and f.value.id == cx.spec.get('stream') and 'pos_' in env):
+            return 'pos_', 'int', []           # `<stream>.tell()`: the position the reads of the complete input have reached
         if isinstance(f, ast.Name) and f.id == '__readN' and len(e.args) == 3:
             a, ta, pa = tr_expr(cx, env, e.args[0])
             b, tb, pb = tr_expr(cx, env, e.args[1])
@@ -1168,6 +1171,14 @@ class StreamReads(ast.NodeTransformer):
             h.body = self.rewrite(h.body)
         return node
 
+    def visit_Expr(self, node):
+        # `<stream>.seek(p, os.SEEK_SET)` as a statement: the position becomes p
+        c = node.value
+        if (isinstance(c, ast.Call) and isinstance(c.func, ast.Attribute) and c.func.attr == 'seek' and isinstance(c.func.value, ast.Name)
+                and c.func.value.id == self.stream and len(c.args) == 2 and not c.keywords and unparse(c.args[1]).strip() == 'os.SEEK_SET'):
+            return ast.parse('pos_ = %s' % unparse(c.args[0])).body
+        return node
+
     def visit_For(self, node):
         it = node.iter
         if (isinstance(it, ast.Call) and isinstance(it.func, ast.Name) and it.func.id == 'readFromStream' and len(it.args) == 3
@@ -1240,7 +1251,7 @@ def slice_body(fn, spec):
                 out.append(st)
         body = out
     if 'stream' in spec:
-        body = [ast.parse('pos_ = 0').body[0]] + StreamReads(spec['stream']).rewrite(body)
+        body = [ast.parse('pos_ = %s' % spec.get('stream_pos', '0')).body[0]] + StreamReads(spec['stream']).rewrite(body)
     if 'iteration' in spec:
         # one turn of a generator's `while True:` loop: `yield <underrun>` hands the underrun out and the loop comes round again
         # (the next turn starts from the same code) - the turn answers None; `break` leaves the loop for the final
